@@ -107,6 +107,9 @@ structure World where
   /-- what pretty-printing the AST does (it evaluates every marshalling property of every configured generator, so an
   invalid identifier surfaces here already) -/
   astDump : StageResult := .ok
+  /-- what `write_processed_files` raises when the configured report path is unusable (an out-file extension that is not
+  known: 141), if anything -/
+  reportFail : Option Raised := none
 
 /-! ## the front end's verdict (`Parser.parse`), as far as the exit status depends on it
 
@@ -206,7 +209,9 @@ def generateStage (cts : List TargetDef) (w : World) (clean : Bool) (t : String)
   | .crash s => { result := .raised (.other s) }
 
 def reportStage (w : World) : Stage :=
-  { result := .ok, events := if w.reportConfigured then [.report] else [] }
+  match w.reportFail with
+  | some r => { result := .raised r }
+  | none => { result := .ok, events := if w.reportConfigured then [.report] else [] }
 
 def knownTarget (t : String) : Bool := targetTable.any (fun d => d.key == t)
 
@@ -266,6 +271,7 @@ def cliDom (inv : Invocation) (w : World) : Bool :=
         targets.all (fun t => readyDom (configuredOf inv w) w.kinds t
           && (match w.genFail t with | some r => r.documented | none => true))
       | _ => true)
+  && (match w.reportFail with | some r => r.documented | none => true)
 
 /-! ## the documented return-code table (docs/cli.md, rendered from the registry; the property names 2, 141, 150, 161, 170) -/
 
